@@ -79,6 +79,7 @@ ppl_new_@TOPOLOGY@@CLASS@_from_@FRIEND@_with_complexity
     *pph = to_nonconst(new @TOPOLOGY@@CPP_CLASS@(phh, SIMPLEX_COMPLEXITY));
     break;
   case 2:
+  default:
     *pph = to_nonconst(new @TOPOLOGY@@CPP_CLASS@(phh, ANY_COMPLEXITY));
     break;
   }
@@ -920,6 +921,7 @@ ppl_@CLASS@_drop_some_non_integer_points
     pph.drop_some_non_integer_points(SIMPLEX_COMPLEXITY);
     break;
   case 2:
+  default:
     pph.drop_some_non_integer_points(ANY_COMPLEXITY);
     break;
   }
@@ -948,6 +950,7 @@ ppl_@CLASS@_drop_some_non_integer_points_2
     pph.drop_some_non_integer_points(vars, SIMPLEX_COMPLEXITY);
     break;
   case 2:
+  default:
     pph.drop_some_non_integer_points(vars, ANY_COMPLEXITY);
     break;
   }
